@@ -292,6 +292,33 @@ fn process_join_accept_contract<R: DynamicChannelRegion + Clone>(fresh: DynamicC
     // C11: "applied when valid for the region and ignored when not": every channel now defined lies in the band
     assert!(inband(&p), "C09/C11 CFList frequencies outside the region's band are not installed");
     if kind != 1 { assert!(plan_eq(&p, &old), "C11 no CFList / a CFList of another type changes nothing on a dynamic plan"); }
+    if kind == 1 {
+        // C11 "the accept's channel list is applied when valid for the region and ignored when not", entry by entry
+        // (LoRaWAN 1.0.x 7.x.4: the five frequencies define channels J..J+4, DR0..DR5; 0 = the channel is unused):
+        assert!(p.channel_mask == old.channel_mask, "C11 a type 0 CFList does not touch the channel mask");
+        let j = R::NUM_JOIN_CHANNELS as usize;
+        let mut i = 0;
+        while i < 16 {
+            let same = match (p.channels[i], old.channels[i]) {
+                (None, None) => true,
+                (Some(x), Some(y)) => x.frequency == y.frequency && x._datarates == y._datarates && x.dl_frequency == y.dl_frequency,
+                _ => false };
+            if i < j || i >= j + 5 { assert!(same, "C11 channels outside J..J+4 are not touched by the CFList"); }
+            else {
+                let f = (freqs[i - j][0] as u32 | (freqs[i - j][1] as u32) << 8 | (freqs[i - j][2] as u32) << 16) * 100;
+                if f == 0 { assert!(p.channels[i].is_none(), "C11 a zero CFList entry marks the channel unused: it is not defined afterwards"); }
+                else if p.frequency_valid(f) {
+                    match p.channels[i] {
+                        Some(c) => assert!(c.frequency == f && c.dl_frequency.is_none() && c._datarates.min_data_rate() == 0 && c._datarates.max_data_rate() == 5,
+                                           "C11 a valid CFList entry defines the channel: that frequency, DR0..DR5, RX1 on the same frequency"),
+                        None => assert!(false, "C11 a valid CFList entry defines the channel"),
+                    }
+                } else { assert!(same, "C11 a CFList entry outside the band is ignored (the channel stays as it was)"); }
+            }
+            i += 1;
+        }
+        kani::cover!(freqs[0] == [0, 0, 0] && old.channels[j].is_some(), "verif-reached: zero entry over a defined channel");
+    }
     kani::cover!(kind == 1, "verif-reached: type 0 CFList");
 }
 // @verif props=C04,C09,C11 obligation=DynamicChannelPlan::process_join_accept.contract[EU868] label=proved-complete tier=quick
